@@ -26,6 +26,7 @@ from liquid2.builtin import Identifier
 from liquid2.builtin import StringLiteral
 from liquid2.builtin import identifier_str
 from liquid2.builtin import parse_string_or_identifier
+from liquid2.exceptions import LiquidError
 from liquid2.exceptions import LiquidSyntaxError
 from liquid2.exceptions import RequiredBlockError
 from liquid2.exceptions import StopRender
@@ -217,7 +218,7 @@ class BlockNode(Node):
         if stack_item.required:
             raise RequiredBlockError(
                 f"block {self.name!r} must be overridden",
-                token=self.token,
+                token=stack_item.token,
                 template_name=stack_item.source_name,
             )
 
@@ -240,7 +241,13 @@ class BlockNode(Node):
         # it and variables assigned before it count.
         drop.context = ctx
 
-        return stack_item.block.block.render(ctx, buffer)
+        try:
+            return stack_item.block.block.render(ctx, buffer)
+        except LiquidError as err:
+            # The block that is rendered here can come from another template.
+            if not err.template_name:
+                err.template_name = stack_item.source_name
+            raise
 
     async def render_to_output_async(
         self, context: RenderContext, buffer: TextIO
@@ -275,7 +282,7 @@ class BlockNode(Node):
         if stack_item.required:
             raise RequiredBlockError(
                 f"block {self.name!r} must be overridden",
-                token=self.token,
+                token=stack_item.token,
                 template_name=stack_item.source_name,
             )
 
@@ -297,7 +304,13 @@ class BlockNode(Node):
         # `block.super` is rendered where it is used, inside this block. Loops around
         # it and variables assigned before it count.
         drop.context = ctx
-        return await stack_item.block.block.render_async(ctx, buffer)
+        try:
+            return await stack_item.block.block.render_async(ctx, buffer)
+        except LiquidError as err:
+            # The block that is rendered here can come from another template.
+            if not err.template_name:
+                err.template_name = stack_item.source_name
+            raise
 
     def children(
         self,
@@ -417,7 +430,12 @@ class BlockDrop(Mapping[str, object]):
                 )
             }
         ):
-            self.parent.block.block.render(self.context, buf)
+            try:
+                self.parent.block.block.render(self.context, buf)
+            except LiquidError as err:
+                if not err.template_name:
+                    err.template_name = self.parent.source_name
+                raise
 
         if self.context.auto_escape:
             return Markupsafe(buf.getvalue())
@@ -592,6 +610,7 @@ def _stack_blocks(
             raise TemplateInheritanceError(
                 f"duplicate block {block.name}",
                 token=block.token,
+                template_name=template_name,
             )
         seen_block_names.add(block.name)
 
